@@ -167,8 +167,17 @@ Definition bigratio_to_f64 (n d : Z) : f64 :=
   | _, _ => f64_zero
   end.
 
-(* Number::parse_rational, number.rs:90-122 *)
+(* the guard of fix e424813: text.split_once('/') and a denominator text that starts
+   with '+' or '-' (R7RS denominators are unsigned) *)
+Definition signed_denominator (t : text) : bool :=
+  match split_slash t with
+  | Some (_, c :: _) => ((c =? 43) || (c =? 45))%N
+  | _ => false
+  end.
+
+(* Number::parse_rational, number.rs:90-128 *)
 Definition parse_rational (p : profile) (t : text) (radix : Z) : out (option num) :=
+  if signed_denominator t then Ok None else
   do r <- ratio32_from_str_radix p t radix;
   match r with
   | Some (n, d) => if d =? 1 then Ok (Some (Fixnum n)) else Ok (Some (Rational n d))
